@@ -31,9 +31,9 @@ def T(prop, name, rel, pattern, repl, count=1, flags=0, also=()):
 
 F = "iodata/formats/"
 # ----------------------------------------------------------------------------- C01
-M("C01", "fchk-drop-signs", F + "fchk.py", r"coeffsa = data\.mo\.coeffsa\[permutation\] \* signs\.reshape\(-1, 1\)", "coeffsa = data.mo.coeffsa[permutation]", "C01-R1")
-M("C01", "molden-drop-permutation", F + "molden.py", r"data\.mo\.coeffsb\[permutation\] \* signs\.reshape\(-1, 1\)", "data.mo.coeffsb * signs.reshape(-1, 1)", "C01-R1")
-M("C01", "wfx-sign-before-index", F + "wfx.py", r"raw_coeffs = data\.mo\.coeffs\[permutation\] \* signs\.reshape\(-1, 1\)", "raw_coeffs = (data.mo.coeffs * signs.reshape(-1, 1))[permutation]", "C01-R1")
+M("C01", "fchk-drop-signs", F + "fchk.py", r"coeffsa = data\.mo\.coeffsa\[permutation\] \* signs\.reshape\(-1, 1\)", "coeffsa = data.mo.coeffsa[permutation]", "C01-R9")
+M("C01", "molden-drop-permutation", F + "molden.py", r"data\.mo\.coeffsb\[permutation\] \* signs\.reshape\(-1, 1\)", "data.mo.coeffsb * signs.reshape(-1, 1)", "C01-R9")
+M("C01", "wfx-sign-before-index", F + "wfx.py", r"raw_coeffs = data\.mo\.coeffs\[permutation\] \* signs\.reshape\(-1, 1\)", "raw_coeffs = (data.mo.coeffs * signs.reshape(-1, 1))[permutation]", "C01-R9")
 M("C01", "molekel-swap-target-table", F + "molekel.py", r"permutation, signs = convert_conventions\(data\.obasis, CONVENTIONS\)", "permutation, signs = convert_conventions(data.obasis, HORTON2_CONVENTIONS)", "C01-R2")
 M("C01", "wfn-reversed-shell-loop", F + "wfn.py", r"for shell in data\.obasis\.shells:\n        for angmom, kind in zip", "for shell in reversed(data.obasis.shells):\n        for angmom, kind in zip", "C01-R3")
 M("C01", "wfn-source-conventions-scales", F + "wfn.py", r"obasis = MolecularBasis\(shells, CONVENTIONS, data\.obasis\.primitive_normalization\)", "obasis = MolecularBasis(shells, data.obasis.conventions, data.obasis.primitive_normalization)", "C01-R4")
@@ -288,6 +288,13 @@ M("C18", "library-absorbs-arithmetic-error", F + "molden.py", r"        fixed_sh
 M("C18", "passthrough-in-set-order", F + "json_qcschema.py", r"    for key in parsed_keys:\n        del result\[key\]\n", "    result = {key: result[key] for key in set(result).difference(keys)}\n", "C18-R7")
 M("C19", "orca-atom-line-dropped", "iodata/inputs/orca.py", r"    if template is None:\n        template = default_template\n    if atom_line is None:\n        atom_line = default_atom_line\n", "    if template is None:\n        template, atom_line = default_template, default_atom_line\n    elif atom_line is None:\n        atom_line = default_atom_line\n", "C19-R4")
 M("C20", "eigh-overwrites-overlap", "iodata/utils.py", r"eigh\(sds, overlap\)", "eigh(sds, overlap, overwrite_b=True)", "C20-R5")
+for _p in ("C01", "C02"):
+    T(_p, "molekel-two-step-conversion", F + "molekel.py", r"        coeff = data\.mo\.coeffsa\[permutation\] \* signs\.reshape\(-1, 1\)\n", "        coeff = data.mo.coeffsa[permutation]\n        coeff = coeff * signs.reshape(-1, 1)\n")
+    M(_p, "molekel-beta-without-permutation", F + "molekel.py", r"data\.mo\.coeffsb\[permutation\] \* signs\.reshape\(-1, 1\)", "data.mo.coeffsb * signs.reshape(-1, 1)", "%s-%s" % (_p, "R9" if _p == "C01" else "R10"))
+    M(_p, "molden-restricted-without-signs", F + "molden.py", r"data\.mo\.coeffs\[permutation\] \* signs\.reshape\(-1, 1\)", "data.mo.coeffs[permutation]", "%s-%s" % (_p, "R9" if _p == "C01" else "R10"))
+M("C03", "molden-5d-prefix-swallows-5d10f", F + "molden.py", r'line\.startswith\(\("\[5d\]", "\[5d7f\]"\)\)', 'line.startswith("[5d")', "C03-R11")
+M("C05", "molden-5d-prefix-swallows-5d10f", F + "molden.py", r'line\.startswith\(\("\[5d\]", "\[5d7f\]"\)\)', 'line.startswith("[5d")', "C05-R11")
+T("C05", "molden-tag-chain-reordered", F + "molden.py", r'        if line\.startswith\(\("\[5d\]", "\[5d7f\]"\)\):\n            pure_angmoms\.add\(2\)\n            pure_angmoms\.add\(3\)\n        elif line\.lower\(\)\.startswith\("\[7f\]"\):\n            pure_angmoms\.add\(3\)\n        elif line\.lower\(\)\.startswith\("\[5d10f\]"\):\n            pure_angmoms\.add\(2\)\n', '        if line.startswith("[5d10f]"):\n            pure_angmoms.add(2)\n        elif line.startswith("[5d"):\n            pure_angmoms.update((2, 3))\n        elif line.startswith("[7f]"):\n            pure_angmoms.add(3)\n')
 T("C20", "eigh-transposed-metric", "iodata/utils.py", r"eigh\(sds, overlap\)", "eigh(sds, overlap.T)")
 
 _VOL_OLD = r"    nvecs = cellvecs\.shape\[0\]\n(?:.|\n)*?    raise ValueError\(\"Argument cellvecs should be of shape \(x, 3\), where x is in \{1, 2, 3\}\"\)\n"
